@@ -46,6 +46,8 @@ fn finish(name: &str, a: &Args, cases: Vec<Case>) {
 }
 
 fn case_of(o: &Outcome, why: Vec<String>, class: String) -> Case {
+    let mut why = why;
+    if o.result == "hang" { why.push("the connection handler did not settle within 20 s of real time on this scenario (busy loop or dead-lock): it neither ended the connection nor waited for input".into()); }
     Case { request: o.request.clone(), observed: o.observed.clone(), oracle: if why.is_empty() { None } else { Some(why.join("; ")) }, class }
 }
 
